@@ -34,11 +34,13 @@ CLAIMS = {
 GOALS = {'quick': ['a chain of 3', 'two steps in one layer', 'nested', 'split',
                    'a flow step also makes a structural update',
                    'deriver created at run time', 'legacy derivers only',
-                   'nested flow steps generated at run time'],
+                   'nested flow steps generated at run time',
+                   'engine built from a generated store'],
          'thorough': ['a chain of 3', 'two steps in one layer', 'nested',
                       'split', 'a flow step also makes a structural update',
                       'deriver created at run time', 'legacy derivers only',
-                      'nested flow steps generated at run time']}
+                      'nested flow steps generated at run time',
+                      'engine built from a generated store']}
 STUBS = ['flow steps computing v_j from what they read (set updater that logs '
          'applications); one of them (symbolic choice, or none) adds a child '
          'to a glob store in the same update, every phase', 'two legacy derivers (one listed under processes, one '
@@ -178,6 +180,11 @@ def jobs(tier):
                                 IV=3 if S < 4 else 2,
                                 budget_s=100 if tier == 'quick' else 900,
                                 crosscheck=20 if tier == 'thorough' else 0))
+    for S in (2, 3):
+        out.append(dict(name='S%d-flat-reversed-via-store' % S, S=S,
+                        layout='flat', order='reversed', part='run', IV=2,
+                        via_store=True,
+                        budget_s=100 if tier == 'quick' else 900))
     out.append(dict(name='rejects', part='rejects', budget_s=60))
     out.append(dict(name='legacy-only', part='legacy', budget_s=60))
     return out
@@ -336,10 +343,22 @@ def body(ctx, cfg):
         LOG.append(('emit', data['table']))
     sink = stubs.reset_sink(hook)
     try:
-        e = Engine(processes=processes, steps=steps, flow=flow,
-                   topology=topology, emitter={'type': 'vsym_rec'},
-                   initial_state={'gen': {'c0': {'k': 1}}} if spawn else None,
-                   display_info=False)
+        if cfg.get('via_store'):
+            # the engine reads processes, steps and flow back from a store
+            from vivarium.core.composer import Composite
+            store = Composite(dict(
+                processes=processes, steps=steps, flow=flow,
+                topology=topology,
+                state={'gen': {'c0': {'k': 1}}} if spawn else {}
+            )).generate_store()
+            e = Engine(store=store, emitter={'type': 'vsym_rec'},
+                       display_info=False)
+            ctx.goal('engine built from a generated store')
+        else:
+            e = Engine(processes=processes, steps=steps, flow=flow,
+                       topology=topology, emitter={'type': 'vsym_rec'},
+                       initial_state={'gen': {'c0': {'k': 1}}} if spawn
+                       else None, display_info=False)
     except PathControl:
         raise
     except ValueError as err:
